@@ -480,7 +480,7 @@ def table_body(case):
 
 def plan(tier):
     shards = [{"name": "table%d" % i, "type": "table", "i": i, "of": 4} for i in range(4)]
-    n, depth = (500, 2) if tier == "quick" else (4000, 3)
+    n, depth = (500, 2) if tier == "quick" else (20000, 3)
     shards += [{"name": "pairs%d" % i, "type": "pairs", "n": n, "depth": depth} for i in range(12)]
     return shards
 
